@@ -5,7 +5,7 @@
    C04/Spec.v.  [final valid h] is the machine state after the history h (any sequence of
    kernel events and psutil calls, any number of generators advanced in any interleaving),
    [irun valid h] the same with the per-generator ghost records. *)
-From PV Require Import Gen.C04_Tables C04.ProofsGen C04.Spec C04.ProofsText C04.Proofs C04.ProofsTable C04.ProofsIter C04.ProofsStale C04.ProofsExact C04.Legacy.
+From PV Require Import Gen.C04_Tables C04.PyGen C04.ProofsGen C04.Spec C04.ProofsText C04.Proofs C04.ProofsTable C04.ProofsIter C04.ProofsStale C04.ProofsExact C04.Legacy.
 
 (* ---- text level ---- *)
 
@@ -513,3 +513,31 @@ Print Assumptions C04_cache_change_is_commit.
 Theorem C04_fork_safe_sync_objects : forallb sync_reinit gen_sync_objects = true.
 Proof. exact fork_safe_sync_objects. Qed.
 Print Assumptions C04_fork_safe_sync_objects.
+
+(* ---- round 2: control flow translated from the source (programs regenerated from psutil/__init__.py on every run) ---- *)
+
+(* psutil.pid_exists(): the if / elif / else chain read from the source (pid < 0 -> False; pid == 0 -> pid in pids();
+   else the platform call), run by the interpreter of C04/PyGen.v, is the model's PidExists step for every state and
+   every integer n. *)
+Theorem C04_gen_pid_exists_is_model : forall valid s n,
+  pe_exec gen_pid_exists s n = step valid s (PidExists n).
+Proof. exact gen_pid_exists_eq_model. Qed.
+Print Assumptions C04_gen_pid_exists_is_model.
+
+(* process_iter(), from 'pmap = _pmap.copy()' to 'ls = sorted(...)': the statements read from the source (which set is
+   subtracted from which, which set is evicted, the draining of _pids_reused, the merge of cached items with new pids),
+   in their order, compute exactly the model's gen_start for every process table, committed cache and reused set --
+   and leave _pids_reused empty. *)
+Theorem C04_gen_prologue_is_model : forall t pm ru,
+  prologue_run gen_iter_prologue t pm ru = (do r <- gen_start t pm ru; Val (r, @nil Z)).
+Proof. exact gen_prologue_eq_model. Qed.
+Print Assumptions C04_gen_prologue_is_model.
+
+(* process_iter(), 'for pid, proc in ls: try: ... except NoSuchProcess: remove(pid)': the guarded statements and the
+   handler read from the source (for which entries a new Process is made and cached, when as_dict runs, the yield, which
+   exception evicts the pid and continues) give the model's gen_loop for every table, attrs, loop state and every rest
+   of the merged list. *)
+Theorem C04_gen_loop_is_model : forall t valid attrs rest x,
+  run_for t valid attrs gen_iter_body x rest = gen_loop t valid attrs x rest.
+Proof. exact gen_loop_eq_model. Qed.
+Print Assumptions C04_gen_loop_is_model.
